@@ -18,7 +18,7 @@ BOUNDS = {"quick": "targets 2.7, 3.3, 3.6, 3.8, 3.10, 3.11, 3.12; skeletons scal
           "thorough": "+ targets 2.5, 3.0, 3.4, 3.7, 3.9, 3.13; ints |x| < 2^70; two constants"}
 OUTSIDE = ["the pipeline obligations read constants of the C10 skeleton shapes (incl. FLAG_REF sharing) inside a minimal code object",
            "'behaves identically' is taken to follow from field equality (bytecode semantics are not modelled)",
-           "target versions without interpreter: reference model only", "constants deeper than one container level"]
+           "target versions without interpreter: reference model only", "lone surrogates in text constants written for Python-2 targets", "constants deeper than one container level"]
 ASSUMPTIONS = ["`open` inside xdis.load rebound to an in-memory sink; datetime.now() not used (timestamp given)",
                "CrossHair/z3 soundness; struct model; refmodels/marshal_ref.py (validated)"]
 FUNCS = ["xdis.load.write_bytecode_file", "xdis.marsh.dumps", "xdis.marsh._Marshaller.dump_code2", "xdis.marsh._Marshaller.dump_code3",
@@ -60,6 +60,8 @@ def skeletons(v, tier):
            ("const-text-latin1", {}, ("text", [(0x7e, 0x81)])),
            ("const-text-bmp", {}, ("text", [(0x7fe, 0x801)])),
            ("const-text-astral", {}, ("text", [(0xfffe, 0x10001)])),
+           ("const-text-surrogate-hi", {}, ("text", [(0xd7fe, 0xd801)])),      # across the start of the surrogate block
+           ("const-text-surrogate-lo", {}, ("text", [(0xdc7e, 0xdc81)])),      # unpaired low surrogates around U+DC80
            ("const-tuple", {}, ("tuple", [("int", -5, 5), ("const", None)])),
            ("const-frozenset", {}, ("frozenset", [("const", 1), ("const", "a")])),
            ("const-float", {}, ("const", 1.5)),
@@ -330,13 +332,15 @@ def generate(tier, seed):
     obs = []
     for v in (TARGETS_Q if tier == "quick" else TARGETS_T):
         for name, fields, const in skeletons(v, tier):
+            if "surrogate" in name and v < (3, 0):
+                continue   # what a lone surrogate in a Python-3 str constant should become in a Python-2 file is not defined
             f2 = {k: val for k, val in fields.items()
                   if not (k == "co_posonlyargcount" and v < (3, 8)) and not (k == "co_kwonlyargcount" and v < (3, 0))
                   and not (k == "co_nlocals" and v >= (3, 11))}
             obs.append(make_ob(v, name, f2, const, tier))
     # read a file (incl. shared/back-referenced constants), write it back, compare what the target reads
     wanted = ("int32", "long2n", "uni1", "bytes1", "(2", ">2", "<1", "share-(", "share->", "share->-after-child", "share-<",
-              "share-str-in-list", "share-two", "share-long", "bfloat-nan", "uni-euro")
+              "share-str-in-list", "share-two", "share-long", "bfloat-nan", "uni-euro", "uni-surrogate")
     for v in ((3, 8), (3, 10), (3, 6), (2, 7)) if tier == "quick" else (TARGETS_Q if tier == "quick" else [t for t in TARGETS_T if t < (3, 11)]):
         for name, shape in c10.shapes_for(v, tier):
             if tier == "thorough" or name in wanted:
